@@ -1,0 +1,12 @@
+//go:build verif
+
+package file
+
+// Machine-checked contracts for the govc verifier (/verif). This file is comment-only and is
+// compiled only with the "verif" build tag.
+
+//@ props C04 C13
+
+// A single-block reader's offset is never negative (Seek rejects such targets before storing).
+//@ typeinv file.singleNodeReader: 0 <= self.offset
+//@ typeinv file.shardNodeReader: 0 <= self.offset
